@@ -7,9 +7,11 @@ package allocator
 // addresses, in-place key changes, moves and pool renames, on a real Allocator.
 // After every operation it
 //   (a) dumps the ACTUAL contents of allocated, sharingKeyForIP, portsInUse,
-//       servicesOnIP, poolIPsInUse, poolIPV4InUse, poolIPV6InUse (sorted),
-//       CountersForPool of every pool and a few checkSharing probes, shipped to
-//       Coq (Corr/Run_AllocMaps.v compares them with the concrete model's maps);
+//       servicesOnIP, poolIPsInUse, poolIPV4InUse, poolIPV6InUse (read through
+//       reflection, normalised, sorted), Pool()/IPs() of every service and
+//       CountersForPool of every pool, shipped to Coq (Corr/Run_AllocMaps.v
+//       compares them with the concrete model's maps); reservation probes are
+//       ordinary Assign+Unassign operations of a probe service in the history;
 //   (b) evaluates the property directly: every derived map equals what is
 //       rebuilt from `allocated` (written from the statement), and equals the
 //       maps of a FRESH allocator into which the surviving allocations are
@@ -17,6 +19,9 @@ package allocator
 // Domain: services with 1..3 distinct ports (what the API server admits).
 // The generator helpers (gGenPools, gBuildPools, gSvcObj, cReq, cPools, ...) are
 // those of zz_verif_alloc_test.go, overlaid into the same package.
+// Only exported functions of the allocator are called; its private state is read
+// through reflection, so a change of representation neither breaks the build nor
+// alarms.
 
 import (
 	"fmt"
@@ -519,15 +524,21 @@ func TestVerifAllocMaps(t *testing.T) {
 	defer out.Close()
 	r := vRand()
 	n := vN(60)
+	for _, f := range mSnapshot(New(func(string) {})).Skipped {
+		out.Stat("whitebox_skipped:"+f, 1)
+	}
 	for id := 1; id <= n; id++ {
 		mRunHistory(out, r, id)
 	}
 }
 
+var mProbeSvcs = []string{"ns1/probe", "ns2/probe"}
+
 func mRunHistory(out *vOut, r *rand.Rand, id int) {
 	a := New(func(string) {})
 	nsvc := 2 + r.Intn(4)
 	svcs := gSvcNames[:nsvc]
+	universe := append(append([]string{}, svcs...), mProbeSvcs...)
 	nops := 10 + r.Intn(22)
 	var steps []string
 	var human []gOp
@@ -536,11 +547,11 @@ func mRunHistory(out *vOut, r *rand.Rand, id int) {
 	reqs := map[string]*gReq{} // request that produced the current allocation
 	failed := false
 	fail := func(sig, what string) {
-		out.Fail(sig, what, map[string]any{"history": human, "maps": mSnapshot(a)})
+		out.Fail(sig, what, map[string]any{"history": human, "maps": mSnapshot(a).human(), "exported": mExported(a, universe)})
 		failed = true
 	}
 
-	doOp := func(op gOp) (ok bool) {
+	doOp := func(op gOp) (ok bool, opErr error) {
 		var coqOp string
 		var resIPs []net.IP
 		var err error
@@ -549,7 +560,7 @@ func mRunHistory(out *vOut, r *rand.Rand, id int) {
 		if op.Req != nil {
 			svcObj = gSvcObj(op.Svc, op.Req)
 		}
-		before := mSnapshot(a)
+		before, bbBefore := mSnapshot(a), mExported(a, universe)
 		panicked := func() (p any) {
 			defer func() { p = recover() }()
 			switch op.Kind {
@@ -623,47 +634,72 @@ func mRunHistory(out *vOut, r *rand.Rand, id int) {
 		human = append(human, op)
 		if panicked != nil {
 			fail("allocmaps-panic", fmt.Sprintf("operation %d (%s %s) panicked: %v", len(human), op.Kind, op.Svc, panicked))
-			return false
+			return false, nil
 		}
+		bb := mExported(a, universe)
 		for s := range reqs {
-			if a.allocated[s] == nil {
+			if _, held := bb[s]; !held {
 				delete(reqs, s)
 			}
 		}
+		where := fmt.Sprintf("after operation %d (%s %s)", len(human), op.Kind, op.Svc)
 
-		// ---- oracle: memory = rebuild
+		// ---- the recorded allocations: the allocator's own map when it can be read,
+		// otherwise the exported view + the requests that produced the holdings
 		got := mSnapshot(a)
-		want, notes := mRebuild(a)
+		recs := got.Alloc
+		if recs != nil {
+			for _, s := range universe {
+				al, in := recs[s]
+				h, held := bb[s]
+				if in != held || (in && (al.Pool != h.Pool || !reflect.DeepEqual(al.IPs, h.IPs))) {
+					fail("allocmaps-allocated-vs-exported", fmt.Sprintf("%s: service %s: allocated holds %v, Pool()/IPs() report %v", where, s, al, h))
+				}
+			}
+		} else {
+			recs = map[string]mAlloc{}
+			for s, h := range bb {
+				if q := reqs[s]; q != nil {
+					recs[s] = mAlloc{Pool: h.Pool, IPs: h.IPs, Ports: q.Ports, Key: [2]string{q.Sharing, q.Backend}}
+				}
+			}
+		}
+		// ---- oracle: memory = rebuild
+		want, notes := mRebuild(recs)
 		if which, d := mDiff(got, want); d != "" {
-			fail("allocmaps-"+which+"-differs-from-rebuild", fmt.Sprintf("after operation %d (%s %s): %s", len(human), op.Kind, op.Svc, d))
+			fail("allocmaps-"+which+"-differs-from-rebuild", where+": "+d)
 		}
 		for _, n := range notes {
-			fail("allocmaps-allocated-inconsistent", fmt.Sprintf("after operation %d (%s %s): %s", len(human), op.Kind, op.Svc, n))
+			fail("allocmaps-allocated-inconsistent", where+": "+n)
 		}
 		// a fresh allocator, the surviving allocations re-assigned in two different orders
-		order := mSortedKeys(a.allocated)
+		order := mSortedKeys(recs)
 		for pass := 0; pass < 2 && !failed; pass++ {
-			fa := mFresh(a, order)
+			fa := mFresh(pools, recs, reqs, order)
 			if fa == nil {
+				out.Stat("m_fresh_not_admissible", 1)
 				break
 			}
-			f := mSnapshot(fa)
-			if _, d := mDiff(got, f); d != "" {
-				fail("allocmaps-fresh-allocator-differs", fmt.Sprintf("after operation %d (%s %s): long-running vs fresh allocator: %s", len(human), op.Kind, op.Svc, d))
+			out.Stat("m_fresh_compared", 1)
+			if _, d := mDiff(got, mSnapshot(fa)); d != "" {
+				fail("allocmaps-fresh-allocator-differs", where+": long-running vs fresh allocator: "+d)
+			}
+			if !reflect.DeepEqual(bb, mExported(fa, universe)) {
+				fail("allocmaps-fresh-allocator-differs", fmt.Sprintf("%s: long-running allocator reports %v, fresh one %v", where, bb, mExported(fa, universe)))
 			}
 			for i, j := 0, len(order)-1; i < j; i, j = i+1, j-1 {
 				order[i], order[j] = order[j], order[i]
 			}
 		}
 		// a failed operation changes nothing
-		if gotRes && err != nil && !reflect.DeepEqual(before, got) {
-			fail("allocmaps-failed-op-changed-maps", fmt.Sprintf("operation %d (%s %s) failed but the maps changed", len(human), op.Kind, op.Svc))
+		if gotRes && err != nil && !(reflect.DeepEqual(before, got) && reflect.DeepEqual(bbBefore, bb)) {
+			fail("allocmaps-failed-op-changed-maps", fmt.Sprintf("operation %d (%s %s) failed but the allocator's memory changed", len(human), op.Kind, op.Svc))
 		}
 		// branch counters (of the history, independent of the code's bookkeeping)
 		holders := map[string]int{}
-		for _, al := range a.allocated {
-			for _, ip := range al.ips {
-				holders[ip.String()]++
+		for _, h := range bb {
+			for _, x := range h.IPs {
+				holders[x]++
 			}
 		}
 		for _, c := range holders {
@@ -683,36 +719,48 @@ func mRunHistory(out *vOut, r *rand.Rand, id int) {
 			c := a.CountersForPool(p)
 			ctrs = append(ctrs, cPair(cNi(gNum(gN.pool, p)), cCtor("Build_counters", cZ(c.AssignedIPv4), cZ(c.AssignedIPv6), cZ(c.AvailableIPv4), cZ(c.AvailableIPv6))))
 		}
-		var probes []string
-		univ := gAddrUniverse(pools)
-		for k := 0; k < 4 && len(univ) > 0; k++ {
-			ps := svcs[r.Intn(len(svcs))]
-			pq := mGenReq(r, ps)
-			pip := net.ParseIP(univ[r.Intn(len(univ))])
-			if k < 3 && len(a.allocated) > 0 {
-				hs := mSortedKeys(a.allocated)
-				hips := a.allocated[hs[r.Intn(len(hs))]].ips
-				if len(hips) > 0 {
-					pip = hips[r.Intn(len(hips))]
-				}
-			}
-			okp := a.checkSharing(ps, pip.String(), pq.Ports, &key{sharing: pq.Sharing, backend: pq.Backend}) == nil
-			probes = append(probes, cCtor("Build_mprobe", cNi(gNum(gN.svc, ps)), cIP(pip), cPorts(pq.Ports), cKey(pq.Sharing, pq.Backend), cBool(okp)))
-		}
-		steps = append(steps, cPair(coqOp, cCtor("Build_mobs", resTerm, mDumpTerm(a, ctrs, probes))))
-		return true
+		steps = append(steps, cPair(coqOp, cCtor("Build_mobs", resTerm, mDumpTerm(got, bb, ctrs))))
+		return true, err
 	}
 
+	held := func() []string { return mSortedKeys(mExported(a, svcs)) }
 	holderOf := func() (string, []net.IP) {
-		hs := mSortedKeys(a.allocated)
+		hs := held()
 		if len(hs) == 0 {
 			return "", nil
 		}
 		h := hs[r.Intn(len(hs))]
-		return h, a.allocated[h].ips
+		return h, a.IPs(h)
+	}
+	// a reservation probe through the exported behaviour: a probe service tries to
+	// take an address (mostly one somebody holds) and gives it back
+	probe := func() bool {
+		ps := mProbeSvcs[r.Intn(len(mProbeSvcs))]
+		pq := mGenReq(r, ps)
+		univ := gAddrUniverse(pools)
+		if len(univ) == 0 {
+			return true
+		}
+		pip := univ[r.Intn(len(univ))]
+		if h, hips := holderOf(); h != "" && len(hips) > 0 && r.Intn(4) != 0 {
+			pip = hips[r.Intn(len(hips))].String()
+			if hq := reqs[h]; hq != nil && r.Intn(2) == 0 {
+				pq.Sharing, pq.Backend = hq.Sharing, hq.Backend
+			}
+		}
+		out.Stat("m_probes", 1)
+		ok, err := doOp(gOp{Kind: "assign", Svc: ps, Req: pq, IPs: []string{pip}})
+		if !ok {
+			return false
+		}
+		if err == nil {
+			out.Stat("m_probe_accepted", 1)
+			ok, _ = doOp(gOp{Kind: "unassign", Svc: ps})
+		}
+		return ok
 	}
 
-	if !doOp(gOp{Kind: "setpools", Pools: gGenPools(r, false)}) {
+	if ok, _ := doOp(gOp{Kind: "setpools", Pools: gGenPools(r, false)}); !ok {
 		return
 	}
 	for k := 0; k < nops && !failed; k++ {
@@ -724,7 +772,7 @@ func mRunHistory(out *vOut, r *rand.Rand, id int) {
 		ok := true
 		switch {
 		case x < 22:
-			ok = doOp(gOp{Kind: "allocate", Svc: s, Req: q})
+			ok, _ = doOp(gOp{Kind: "allocate", Svc: s, Req: q})
 		case x < 44:
 			ips := []string{pick()}
 			if q.Fam == "dual" {
@@ -739,33 +787,33 @@ func mRunHistory(out *vOut, r *rand.Rand, id int) {
 			if r.Intn(20) == 0 {
 				ips = append(ips, pick(), pick())
 			}
-			ok = doOp(gOp{Kind: "assign", Svc: s, Req: q, IPs: ips})
+			ok, _ = doOp(gOp{Kind: "assign", Svc: s, Req: q, IPs: ips})
 		case x < 54: // the service keeps its addresses and changes its key and/or ports
-			if al := a.allocated[s]; al != nil {
+			if a.Pool(s) != "" {
 				out.Stat("m_reassign_same_addresses", 1)
-				ok = doOp(gOp{Kind: "assign", Svc: s, Req: q, IPs: gIPStrs(al.ips)})
+				ok, _ = doOp(gOp{Kind: "assign", Svc: s, Req: q, IPs: gIPStrs(a.IPs(s))})
 			} else {
-				ok = doOp(gOp{Kind: "allocate", Svc: s, Req: q})
+				ok, _ = doOp(gOp{Kind: "allocate", Svc: s, Req: q})
 			}
 		case x < 62:
 			pn := gPoolNames[r.Intn(len(gPoolNames))]
 			if len(pools) > 0 && r.Intn(4) != 0 {
 				pn = pools[r.Intn(len(pools))].Name
 			}
-			ok = doOp(gOp{Kind: "frompool", Svc: s, Req: q, Pool: pn})
+			ok, _ = doOp(gOp{Kind: "frompool", Svc: s, Req: q, Pool: pn})
 		case x < 68:
-			if al := a.allocated[s]; al != nil && len(al.ips) == 1 && reqs[s] != nil {
+			if ips := a.IPs(s); a.Pool(s) != "" && len(ips) == 1 && reqs[s] != nil {
 				q2 := *reqs[s]
 				q2.Pol, q2.Fam = "prefer", "dual"
-				ok = doOp(gOp{Kind: "additional", Svc: s, Req: &q2, IPs: []string{al.ips[0].String()}, Pool: al.pool})
+				ok, _ = doOp(gOp{Kind: "additional", Svc: s, Req: &q2, IPs: []string{ips[0].String()}, Pool: a.Pool(s)})
 			} else {
-				ok = doOp(gOp{Kind: "allocate", Svc: s, Req: q})
+				ok, _ = doOp(gOp{Kind: "allocate", Svc: s, Req: q})
 			}
 		case x < 84:
-			if a.allocated[s] != nil {
+			if a.Pool(s) != "" {
 				out.Stat("m_unassign_of_holder", 1)
 			}
-			ok = doOp(gOp{Kind: "unassign", Svc: s})
+			ok, _ = doOp(gOp{Kind: "unassign", Svc: s})
 		default:
 			np := gGenPools(r, false)
 			if r.Intn(3) != 0 && len(pools) > 0 { // rename / regroup: same CIDRs under other names
@@ -780,15 +828,22 @@ func mRunHistory(out *vOut, r *rand.Rand, id int) {
 					np[1].CIDRs = append(append([]string{}, np[1].CIDRs...), c)
 				}
 				sort.Slice(np, func(i, j int) bool { return np[i].Name < np[j].Name })
-				if len(a.allocated) > 0 {
+				if len(held()) > 0 {
 					out.Stat("m_rename_with_holders", 1)
 				}
 			}
-			ok = doOp(gOp{Kind: "setpools", Pools: np})
+			ok, _ = doOp(gOp{Kind: "setpools", Pools: np})
+		}
+		if ok && !failed && r.Intn(2) == 0 {
+			ok = probe()
 		}
 		if !ok {
 			return
 		}
 	}
-	out.Case(id, "maps", cCtor("Build_mcase", cNi(id), cList(steps)), human)
+	var univ []string
+	for _, s := range universe {
+		univ = append(univ, cNi(gNum(gN.svc, s)))
+	}
+	out.Case(id, "maps", cCtor("Build_mcase", cNi(id), cList(univ), cList(steps)), human)
 }
